@@ -67,7 +67,8 @@ def u_sus_loop(ctx):
         def __init__(self):
             self.calls = []
 
-        def uniform(self, lo, hi, size=None):
+        def uniform(self, low=0.0, high=1.0, size=None):       # numpy's parameter names: callers may pass them by keyword
+            lo, hi = low, high
             e = cur()
             r = fresh_real("offset")
             e.assume(z3.And(r.t >= _t(lo), r.t <= _t(hi)))     # [low, high); numpy may return high by rounding
@@ -75,7 +76,8 @@ def u_sus_loop(ctx):
             box["draw"] = r
             return r
 
-        def shuffle(self, arr):
+        def shuffle(self, x, axis=0):
+            arr = x
             e = cur()
             n = _t(arr.shape[0])
             PI = z3.Function(e.fresh_name("pi"), z3.IntSort(), z3.IntSort())
